@@ -788,6 +788,17 @@ def _judge(c):
         base2 = call_init(init, shape, kw, seed)
     except Exception as e:
         return _viol("exception:%s" % init, "valid %s request raises %r" % (init, e), c)
+    if form == "randomstate" and seed_int is not None:
+        # a legacy RandomState given as seed is only READ (its state seeds a fresh Generator): using the SAME object for several requests
+        # gives the same draw every time, the draw of a fresh RandomState with that seed
+        try:
+            rs = mkseed(form, seed_int)
+            again = [call_init(init, shape, kw, rs) for _ in range(3)]
+        except Exception as e:  # noqa: BLE001
+            return _viol("exception:%s" % init, "valid %s request with a reused RandomState seed raises %r" % (init, e), c)
+        if any(not same_matrix(x, base) for x in again):
+            return _viol("seed:reused-randomstate-not-pure", "%s called several times with ONE RandomState object as seed does not return the same matrix each time "
+                         "(the result is not a function of its arguments and seed)" % init, c)
     # ---- shape / format / dtype
     if tuple(base.shape) != expected_shape(c):
         return _viol("shape", "%s returns shape %s" % (init, base.shape), c, expected_shape(c), list(base.shape))
